@@ -32,7 +32,7 @@ func ruleMV(w *world.World, r *report.RuleResult) {
 			if iff == nil || !blk.Dominates(in.Block()) {
 				continue
 			}
-			if derivesFrom(iff.Cond, func(v ssa.Value) bool {
+			if derivesFrom(world.CondValue(iff), func(v ssa.Value) bool {
 				bo, ok := v.(*ssa.BinOp)
 				if !ok || (bo.Op != token.EQL && bo.Op != token.NEQ) {
 					return false
